@@ -54,12 +54,19 @@ def main():
             return 2
         env = dict(os.environ, CARGO_NET_OFFLINE='true')
         if tests:
-            rc, out = sh(['cargo', 'test', '--offline'], cwd=wt, env=env)
-            lines = [l for l in out.splitlines() if l.startswith('test result') or 'FAILED' in l or 'error' in l.lower()]
+            # the pinned suite (unit + integration tests); the doctests are run as well, with one
+            # retry: two of the repository's doctests write and delete the same ./points.shp
+            # and occasionally trip over each other, whatever the patch
+            rc, out = sh(['cargo', 'test', '--offline', '--lib', '--tests'], cwd=wt, env=env)
             result['repo_tests_pass'] = rc == 0
             print('repo tests with patch: %s' % ('PASS' if rc == 0 else 'FAIL'))
             if rc != 0:
-                print('\n'.join(lines[:20]))
+                print('\n'.join([l for l in out.splitlines() if 'FAILED' in l or 'panicked' in l][:20]))
+            rc, out = sh(['cargo', 'test', '--offline', '--doc'], cwd=wt, env=env)
+            if rc != 0:
+                rc, out = sh(['cargo', 'test', '--offline', '--doc'], cwd=wt, env=env)
+            result['repo_doctests_pass'] = rc == 0
+            print('repo doctests with patch: %s' % ('PASS' if rc == 0 else 'FAIL'))
         if demo:
             name = os.path.basename(demo)
             shutil.copy(demo, os.path.join(wt, 'tests', name))
